@@ -165,6 +165,27 @@ def run(tier, seed):
         info.update({'label': label, 'option_sets': len(osets), 'scripts': m['n'],
                      'format_calls': m['extra']['format_calls'], 'outcomes': dict(m['outcomes'])})
         report.append(info)
+    # ---- multi-statement scripts (comments between statements, idempotence at statement boundaries)
+    scripts = e2.script_texts(tier)
+    s_opts = t1 + [dict(strip_comments=True, reindent=True), dict(strip_comments=True, keyword_case='upper', identifier_case='upper')]
+    layout_keys = set(k for k, _ in options.LAYOUT)
+
+    def ev_script(text, acc, sqlparse):
+        sig_in = oracles.sig(text, keep_types=True)
+        for o in s_opts:
+            acc.extra['format_calls'] += 1
+            bad = check_case(sqlparse, text, o, not any(k in layout_keys for k in o), sig_in)
+            if bad:
+                acc.violation(e2.viol(bad[0], bad[1] + '|script', bad[2], text, {}, 'script', 1, o))
+        acc.case(text, True, outcome='script', sample={'script': text})
+    ms = e2.run_texts(scripts, ev_script, seed, setup=_setup)
+    viols += ms['viol']
+    vc.update(ms['viol_count'])
+    n_eval += ms['extra']['format_calls']
+    n_dist += ms['distinct']
+    samples += ms['samples'][:2]
+    report.append({'label': 'scripts of 2-3 seed statements x every separator filler x targeted option sets',
+                   'scripts': ms['n'], 'option_sets': len(s_opts), 'format_calls': ms['extra']['format_calls']})
     cov = {
         'evaluations': n_eval, 'distinct_nontrivial': n_dist,
         'rule': 'cases = (seed derivation, <= d deviations among derivation alternatives / comments of 8 kinds in '
